@@ -300,6 +300,50 @@ def analyzer_histories():
     return fails
 
 
+def simulator_histories():
+    """a Simulator object used again after its circuit changed - by a tiny or a large parameter step, an in-place edit, a herald declared
+    later, a re-assigned circuit - returns the amplitudes a fresh Simulator returns for the current circuit (same floats, 1e-12)"""
+    from lightworks import emulator
+    import lightworks as lw
+    fails, n = [], 0
+    p = lw.Parameter(0.3)
+    c = lw.Circuit(3)
+    c.add(lw.Unitary(U(3, 2)), 0)
+    c.ps(0, p)
+    c.bs(0, reflectivity=0.4)
+    c.ps(1, p)
+    c.bs(1, reflectivity=0.7)
+    sim = emulator.Simulator(c)
+    ins = [lw.State([1, 1, 0]), lw.State([0, 1, 1])]
+    steps = [("first", lambda: None), ("parameter +2e-6", lambda: p.set(p.get() + 2e-6)), ("parameter +1e-9", lambda: p.set(p.get() + 1e-9)), ("parameter +0.7", lambda: p.set(p.get() + 0.7)),
+             ("parameter -3e-7", lambda: p.set(p.get() - 3e-7)), ("in-place ps(2, 1e-6)", lambda: c.ps(2, 1e-6)), ("in-place bs", lambda: c.bs(0, 2, reflectivity=0.2)),
+             ("unchanged", lambda: None)]
+    for what, step in steps:
+        n += 1
+        step()
+        got = sim.simulate(ins)
+        want = emulator.Simulator(c).simulate(ins)
+        if [o.s for o in got.outputs] != [o.s for o in want.outputs] or np.abs(np.array(got.array) - np.array(want.array)).max() > 1e-12:
+            fails.append(f"simulator history up to '{what}': reused Simulator differs from a fresh one by {np.abs(np.array(got.array) - np.array(want.array)).max():.2e}")
+    # herald declared after the Simulator was created, then the circuit re-assigned
+    c2 = lw.Unitary(U(4, 1))
+    sim = emulator.Simulator(c2)
+    sim.simulate(lw.State([1, 0, 1, 0]))
+    c2.herald(1, 0, 3)
+    c3 = lw.Unitary(U(3, 5))
+    for what, step, inp in (("herald declared later", lambda: None, [1, 0, 1]), ("circuit re-assigned", lambda: setattr(sim, "circuit", c3), [1, 0, 1])):
+        n += 1
+        step()
+        try:
+            got = sim.simulate(lw.State(inp))
+            want = emulator.Simulator(sim.circuit).simulate(lw.State(inp))
+            if [o.s for o in got.outputs] != [o.s for o in want.outputs] or np.abs(np.array(got.array) - np.array(want.array)).max() > 1e-12:
+                fails.append(f"simulator history '{what}': reused Simulator differs from a fresh one")
+        except Exception as e:  # noqa: BLE001
+            fails.append(f"simulator history '{what}' raised {type(e).__name__}: {e}")
+    return fails, n
+
+
 def _ps():
     import lightworks as lw
     p = lw.PostSelection()
@@ -320,6 +364,17 @@ def unit(tier="quick", seed=0, kind="sampler", shard=0, nshards=1):
             o["replayed"] = "; ".join(f)
             o["replay_spec"] = dict(module="vf.tasks.t_history", func="replay", args=["analyzer", None, None])
         return dict(status="ok", obligations=[o], summary="analyzer: 3 call sequences")
+    if kind == "simulator":
+        f, n = simulator_histories()
+        o = dict(name="lightworks/emulator/simulation/simulator.py:Simulator.simulate#bnd.history-independent", kind="bnd", cases=n,
+                 result="bounded-fail" if f else "bounded-pass", backend="native history enumeration", ms=0, sample="first ; parameter +2e-6 ; ...",
+                 note="a reused Simulator returns the amplitudes of the CURRENT circuit (tiny and large parameter steps, in-place edits, late heralds, re-assignment)")
+        if f:
+            o["model"] = dict(observed=f)
+            o["failing_cases"] = f
+            o["replayed"] = "; ".join(f)
+            o["replay_spec"] = dict(module="vf.tasks.t_history", func="replay", args=["simulator", None, None])
+        return dict(status="ok", obligations=[o], summary=f"simulator: {n} steps")
     hs = [h for k, h in enumerate(histories(tier, kind)) if k % nshards == shard]
     for steps in hs:
         for first_read in (None, "sample", "sample_N_outputs", "warm-all"):
@@ -348,6 +403,9 @@ def unit(tier="quick", seed=0, kind="sampler", shard=0, nshards=1):
 def replay(kind, steps, first_read):
     if kind == "analyzer":
         f = analyzer_histories()
+        return "; ".join(f) if f else None
+    if kind == "simulator":
+        f, _ = simulator_histories()
         return "; ".join(f) if f else None
     m = run_history(kind, tuple(steps), first_read)
     return f"{kind} history {steps} (first read: {first_read}): {m}" if m else None
